@@ -62,30 +62,49 @@ def obs(fn, *a):
     if isinstance(r, tuple) and len(r) == 2 and isinstance(r[1], bool) and fn.startswith("d"):
         return json.dumps(["v", repr(_norm(r[0])), r[1], list(_hooks)])
     return json.dumps(["v", repr(_norm(r)), None, list(_hooks)])
+_RES = None
+def _run_table(table):
+    # All calls of the table run, in order, in a forked copy of this driver that streams one result line per call.
+    # When the copy dies (signal, alarm) the call it was in gets "CRASH:<signal>" and a new copy continues after it:
+    # a crash costs one fork, no interpreter start, and can never be attributed to the wrong call.
+    import os, signal
+    res = {}
+    i = 0
+    while i < len(table):
+        sys.stdout.flush(); sys.stderr.flush()
+        r, w = os.pipe()
+        pid = os.fork()
+        if pid == 0:
+            try:
+                os.close(r)
+                for j in range(i, len(table)):
+                    signal.alarm(60)
+                    os.write(w, (json.dumps([j, obs(*table[j])]) + "\n").encode())
+                signal.alarm(0)
+            finally:
+                os._exit(0)
+        os.close(w)
+        last = i - 1
+        with os.fdopen(r) as f:
+            for line in f:
+                try:
+                    j, v = json.loads(line)
+                except ValueError:
+                    break
+                res[j] = v
+                last = j
+        _, status = os.waitpid(pid, 0)
+        if last + 1 < len(table):
+            res[last + 1] = ("CRASH:%d" % os.WTERMSIG(status)) if os.WIFSIGNALED(status) else ("CRASH:exit%d" % os.WEXITSTATUS(status))
+        i = last + 2
+    return res
 def obs_fork(fn, *a):
-    # the call runs in a forked copy of the driver; death by signal is the observation
-    import os
-    sys.stdout.flush()
-    r, w = os.pipe()
-    pid = os.fork()
-    if pid == 0:
-        try:
-            os.close(r)
-            os.write(w, obs(fn, *a).encode())
-        finally:
-            os._exit(0)
-    os.close(w)
-    data = b""
-    while True:
-        chunk = os.read(r, 65536)
-        if not chunk:
-            break
-        data += chunk
-    os.close(r)
-    _, status = os.waitpid(pid, 0)
-    if os.WIFSIGNALED(status):
-        return "CRASH:%d" % os.WTERMSIG(status)
-    return data.decode() if data else "CRASH:exit%d" % os.WEXITSTATUS(status)
+    global _RES
+    if _RES is None:
+        table = [c[1] for c in json.load(open(sys.argv[3])) if c[0] == "obs_fork"]
+        out = _run_table(table)
+        _RES = {json.dumps(t): out[i] for i, t in enumerate(table)}
+    return _RES[json.dumps([fn] + list(a))]
 '''
 
 
